@@ -289,6 +289,32 @@ def cases(draw):
         else:
             body.append(("print", ("get", ("call", V("mk"), [I(c.key()), B(not nil)]))))
         body.append(("print", S("after-final-get")))
+    tail = []
+    if g.chance(35):
+        # the fallback of `or` / the source of `?=` is a variable of an ENCLOSING function that the closure mentions nowhere
+        # else: it must have been captured, whether the fallback is ever evaluated or not
+        form = g.choice(["or-local", "or-param", "or-expr", "or-in-get", "unwrap-from-captured"])
+        g.label("fallback-only-capture:" + form)
+        k = g.int(1, 9)
+        if form == "or-local":
+            inner = [("return", ("or", V("p"), V("hidden")))]
+        elif form == "or-param":
+            inner = [("return", ("or", V("p"), V("dflt")))]
+        elif form == "or-expr":
+            inner = [("return", ("or", V("p"), ("bin", "+", V("hidden"), V("dflt"))))]
+        elif form == "or-in-get":
+            inner = [("decl", "q", OI, ("or", V("p"), V("hidden")), ()), ("return", ("get", V("q")))]
+        else:
+            inner = [("decl", "q", OI, ("nil",), ()), ("if", ("unwrap", "q", V("ohidden")), [("return", ("bin", "+", ("or", V("p"), I(0)), ("get", V("q"))))], None), ("return", ("or", V("p"), I(0 - 1)))]
+        tail.append(("decl", "mkor", None, ("fn", [("dflt", "int")], ("fn", [OI], "int"),
+                     [("decl", "hidden", None, ("bin", "+", V("dflt"), I(100)), ()), ("decl", "ohidden", OI, ("bin", "+", V("dflt"), I(200)), ()),
+                      ("return", ("fn", [("p", OI)], "int", inner))]), ()))
+        tail.append(("decl", "orf", None, ("call", V("mkor"), [I(k)]), ()))
+        tail.append(("decl", "hidden", None, I(0 - 50), ()))          # a same-named variable where the closure is CALLED must not be found
+        tail.append(("decl", "dflt", None, I(0 - 60), ()))
+        for arg in g.choice([[("nil",), I(3)], [I(3), ("nil",)], [("nil",), ("nil",)]]):
+            tail.append(("print", ("call", V("orf"), [arg])))
+        c.seen.add(("or", "nil")); c.seen.add(("or", "present"))
     if in_fn:
         g.label("in-function")
         stmts.append(("decl", "body", None, ("fn", [("par", OI), ("pas", OS)], None, [("decl", "o_par", OI, V("par"), ())] + body), ()))
@@ -296,6 +322,7 @@ def cases(draw):
         # parameters are visible as optional variables inside
     else:
         stmts += body
+    stmts += tail
     both = {k for k, s in c.seen if (k, "nil") in c.seen and (k, "present") in c.seen}
     return {"stmts": lower(stmts), "labels": sorted(g.labels) + ["use:" + k for k, _ in c.seen], "nt": bool(both)}
 
@@ -337,6 +364,12 @@ def check(case):
             r.rejected = True
             if os.environ.get("MSV_DEBUG"):
                 print("REJECTED:\n" + tail + "\n" + run.stdout[:600])
+            if failure is None:
+                # the reference interpreter runs this program to completion: a compile-time rejection of it is a violation
+                # (when the model predicts a run-time failure, the compiler may legitimately report it earlier)
+                diag = "\n".join(l for l in run.stdout.split("\n") if " = " in l or "-->" in l)[:600]
+                r.failure = fail("the compiler rejected a program that the language accepts and the reference interpreter runs:\n" + diag + "\n" + tail,
+                                 "C12:rejected-valid-program", sc, case={"diagnostics": diag})
             return r
         feats = sorted(set(l for l in case["labels"] if l in ("nested-block", "in-function")))
         sym = "stdout" if run.stdout != out else ("position" if run.klass == "error" and failure else "exit")
